@@ -183,6 +183,12 @@ def setup():
   for c in m.pinger_codes:
     m.trace[c] = None
   m.opcode = [_resolve(R, n) for n in OPCODE_FUNCS]
+  # "opwin" schedules: decisions only at the bytecode instructions of the call-later hand-off itself (and forced switches)
+  m.opwin = [R.CallLaterTask.callLater, R.CallLaterTask.run, R.Scheduler.callLater]
+  m.opwin_windows = {}
+  for f in m.opwin:
+    c = D.code_of(f)
+    m.opwin_windows[f] = set(ln for _, _, ln in c.co_lines() if ln is not None and ln != c.co_firstlineno)
   m.windows = {}
   m.missing = []
   for name, pats in WINDOW_PATTERNS:
@@ -243,6 +249,8 @@ class _Obs(object):
     self.q_adv = None         # number of time advances at the quiescence observation
     self.q = None             # scenario snapshot at quiescence
     self.labels = []
+    self.sched_thread = None  # the thread that runs Scheduler.run()
+    self.creator = None       # optional: run by the main thread between starting and joining the foreign threads
     self.tail = None          # optional: run by the main thread after the foreign threads were joined
     self.patches = []         # optional: extra context managers for the run
 
@@ -275,19 +283,73 @@ class _TracebackShim(object):
 
 def _scn_a(p, ds, obs, m):
   R, P = m.R, m.P
-  progs = p["threads"]      # per thread: ops "cl" | "co" | "rl" | ["b", N] (N consecutive Scheduler.callLater)
+  progs = p["threads"]      # per thread: ops "cl" | "co" | "rl" | ["b", N] (N consecutive Scheduler.callLater) |
+                            # ["n", [ops]]: hand over a function that, once it runs on the scheduler thread, submits ops itself
   hold = bool(p.get("hold"))  # each thread submits inside `with scheduler.synchronized():`
   warm = bool(p.get("warm"))  # one call-later round trip first, so that the CallLaterTask is waiting in its Select
   log = []
   ntail = int(p.get("tail", 0))  # submissions by the main thread: the first right after joining the foreign threads (it may
                                  # race with the scheduler still working on theirs), each further one after quiescence
-  counts = [sum(op[1] if isinstance(op, list) else 1 for op in pr) for pr in progs]
-  expected = [(i, j) for i in range(len(progs)) for j in range(counts[i])] + [(len(progs), j) for j in range(ntail)]
+  ncreator = int(p.get("creator", 0))  # submissions by the main thread (the scheduler's creator) while the foreign threads run
+  task_ops = list(p.get("task") or [])  # submissions made by a cooperative task in one step
+  MAIN = len(progs)
+  nested = {}
+  counts = {}
+  for i, pr in enumerate(progs):
+    counts[i] = 0
+    for t, op in enumerate(pr):
+      if isinstance(op, list) and op[0] == "b":
+        counts[i] += op[1]
+      else:
+        counts[i] += 1
+        if isinstance(op, list) and op[0] == "n":
+          nested[(i, t)] = MAIN + 2 + len(nested)
+          counts[nested[(i, t)]] = len(op[1])
+  counts[MAIN] = ncreator + ntail
+  TASK = MAIN + 1
+  counts[TASK] = len(task_ops)
+  expected = [(sid, j) for sid in sorted(counts) for j in range(counts[sid])]
+  nextj = dict((sid, 0) for sid in counts)
 
-  def mk(i, j, t0):
+  def mk(i, j, t0, then=None):
     def f(*a, **kw):
-      log.append((i, j, _rt.current_thread() is obs.s._thread, t0, ds.vtime()))
+      log.append((i, j, _rt.current_thread() is obs.sched_thread, t0, ds.vtime()))
+      if then is not None:
+        then()
     return f
+
+  def submit_one(sid, op, then=None):
+    s = obs.s
+    j = nextj[sid]
+    nextj[sid] = j + 1
+    f = mk(sid, j, ds.vtime(), then)
+    if op == "cl":
+      s.callLater(f)
+    elif op == "co":
+      P.POXCore.call_later(obs.core, f)
+    elif op == "rl":
+      P.POXCore.raiseLater(obs.core, obs.src, m.Ev, f)
+    else:
+      raise HarnessError("bad op %r" % (op,))
+
+  def submit_ops(sid, ops, where=None):
+    for t, op in enumerate(ops):
+      if isinstance(op, list):
+        if op[0] == "b":
+          for _ in range(op[1]):
+            submit_one(sid, "cl")
+        elif op[0] == "n" and where is not None:
+          nsid, nops = nested[(where, t)], op[1]
+          submit_one(sid, "cl", lambda nsid=nsid, nops=nops: submit_ops(nsid, nops))
+        else:
+          raise HarnessError("bad op %r" % (op,))
+      else:
+        submit_one(sid, op)
+
+  def task_gen(task):
+    submit_ops(TASK, task_ops)
+    return
+    yield 0
 
   def before(s):
     obs.core = types.SimpleNamespace(scheduler=s)
@@ -299,46 +361,33 @@ def _scn_a(p, ds, obs, m):
       ds.wait_quiescent("a: warm-up")
       if not done:
         obs.fail("wakeup-needs-poll", "scenario a: the warm-up function had not run at quiescence", scn="a")
+    if task_ops:
+      m.HTask(1, task_gen).start(s)
+
+  def creator(s):
+    for _ in range(ncreator):
+      submit_one(MAIN, "cl")
+  if ncreator:
+    obs.creator = creator
 
   def tail(s):
-    for j in range(ntail):
-      s.callLater(mk(len(progs), j, ds.vtime()))
+    for _ in range(ntail):
+      j = nextj[MAIN]
+      submit_one(MAIN, "cl")
       ds.wait_quiescent("a: after tail submission %d" % j)
-      if not any(e[0] == len(progs) and e[1] == j for e in log):
+      if not any(e[0] == MAIN and e[1] == j for e in log):
         obs.fail("call-not-noticed", "scenario a: follow-up function %d handed over by a further thread after the others had "
                  "finished had not run when every thread was blocked again" % j, scn="a")
   if ntail:
     obs.tail = tail
 
-  def submit(i):
-    s = obs.s
-    j = 0
-    for op in progs[i]:
-      if isinstance(op, list):
-        if op[0] != "b":
-          raise HarnessError("bad op %r" % (op,))
-        for _ in range(op[1]):
-          s.callLater(mk(i, j, ds.vtime()))
-          j += 1
-        continue
-      f = mk(i, j, ds.vtime())
-      j += 1
-      if op == "cl":
-        s.callLater(f)
-      elif op == "co":
-        P.POXCore.call_later(obs.core, f)
-      elif op == "rl":
-        P.POXCore.raiseLater(obs.core, obs.src, m.Ev, f)
-      else:
-        raise HarnessError("bad op %r" % (op,))
-
   def body(i):
     def run():
       if hold:
         with obs.s.synchronized():
-          submit(i)
+          submit_ops(i, progs[i], i)
       else:
-        submit(i)
+        submit_ops(i, progs[i], i)
     return run
 
   def snap():
@@ -372,12 +421,15 @@ def _scn_a(p, ds, obs, m):
       if not e[2]:
         out.fail("call-wrong-thread", "scenario a: function %r did not run on the scheduler thread" % ((e[0], e[1]),), scn="a")
         break
-    for i in range(len(progs) + (1 if ntail else 0)):
+    for i in sorted(counts):
       js = [e[1] for e in final if e[0] == i]
       if js != sorted(js):
         bad = [k for k in range(1, len(js)) if js[k] < js[k - 1]][:3]
-        out.fail("call-order", "scenario a: thread %d submitted 0..%d in order but they ran out of order, e.g. around positions %r: %r"
-                 % (i, len(js) - 1, bad, [js[max(0, k - 1):k + 1] for k in bad]), scn="a")
+        whom = ("thread %d" % i if i < MAIN else "the main thread" if i == MAIN else "a cooperative task" if i == TASK
+                else "a handed-over function (i.e. the scheduler thread itself)")
+        out.fail("call-order", "scenario a: %s submitted 0..%d in order but they ran out of order, e.g. around positions %r: %r"
+                 % (whom, len(js) - 1, bad, [js[max(0, k - 1):k + 1] for k in bad]), scn="a",
+                 **({"submitter": "scheduler-thread"} if i > MAIN else {}))
     for e in q:
       if e[4] != e[3]:
         out.fail("wakeup-needs-poll", "scenario a: function %r submitted at t=%r ran at t=%r" % ((e[0], e[1]), e[3], e[4]), scn="a")
@@ -407,6 +459,22 @@ def _scn_b(p, ds, obs, m):
   flag = [False]
   wdone = [inthread == 0]
   ms = ["new"]                     # model state of T
+  pending = [0]                    # schedule(T) calls made off the scheduler thread whose ScheduleTask has not run yet
+  ncreator = int(p.get("creator", 0))  # schedule(T) calls by the main thread (the scheduler's creator) while the others run
+
+  def call_schedule():
+    wakes.append(obs.tick())
+    if _rt.current_thread() is obs.sched_thread:
+      wake_effect()
+    else:
+      pending[0] += 1
+    obs.s.schedule(T["t"])
+
+  def creator(s):
+    for _ in range(ncreator):
+      call_schedule()
+  if ncreator:
+    obs.creator = creator
 
   def wake_effect():
     if ms[0] == "waiting":
@@ -416,8 +484,11 @@ def _scn_b(p, ds, obs, m):
     if flag[0]:
       obs.fail("step-overlap", "scenario b: a step of T started while another step of T was running", scn="b")
     flag[0] = True
-    if _rt.current_thread() is not obs.s._thread:
+    if _rt.current_thread() is not obs.sched_thread:
       obs.fail("step-wrong-thread", "scenario b: T ran on a thread other than the scheduler's", scn="b")
+    if ms[0] == "waiting" and pending[0] > 0:
+      pending[0] -= 1          # a wake-up that was called but whose ScheduleTask has not run took effect some other way
+      ms[0] = "queued"
     if ms[0] != "queued":
       obs.fail("resumed-without-wake", "scenario b: a step of T started although T was %s (%s) and no wake-up had taken effect since"
                % (ms[0], "indefinite wait" if after_wait else "it had already used its slot after `yield 0`"), scn="b")
@@ -443,9 +514,7 @@ def _scn_b(p, ds, obs, m):
 
   def wgen(task):
     for _ in range(inthread):
-      wakes.append(obs.tick())
-      wake_effect()
-      obs.s.schedule(T["t"])
+      call_schedule()
       yield 0
     wdone[0] = True
 
@@ -460,7 +529,9 @@ def _scn_b(p, ds, obs, m):
 
   def st_run(self):
     if "t" in T and self._task is T["t"]:
-      if _rt.current_thread() is obs.s._thread:
+      if _rt.current_thread() is obs.sched_thread:
+        if pending[0] > 0:
+          pending[0] -= 1
         wake_effect()
     return (yield from orig_run(self))
   obs.patches.append(ds.patched(R.ScheduleTask, run=st_run))
@@ -479,8 +550,7 @@ def _scn_b(p, ds, obs, m):
   def body(i):
     def run():
       for _ in range(wakers[i]):
-        wakes.append(obs.tick())
-        obs.s.schedule(T["t"])
+        call_schedule()
     return run
 
   def snap():
@@ -806,9 +876,11 @@ def _execute(case):
       if x is not None:
         x._hasQuit = True
 
-  ds = D.DetSched(chooser=chooser, trace=m.trace, windows=m.windows, base=int(sc.get("base", 0)),
-                  decide_on="windows" if sc.get("on") == "win" else "all", observer=observer, on_abort=on_abort,
-                  opcode=m.opcode if sc.get("on") == "op" else (),
+  mode = sc.get("on")
+  ds = D.DetSched(chooser=chooser, trace=m.trace, windows=m.opwin_windows if mode == "opwin" else m.windows,
+                  base=int(sc.get("base", 0)),
+                  decide_on="windows" if mode in ("win", "opwin") else "all", observer=observer, on_abort=on_abort,
+                  opcode=m.opcode if mode == "op" else (m.opwin if mode == "opwin" else ()),
                   max_vtime_span=60.0, watchdog_s=60.0, max_switch_points=2000000)
   r = _SCN[scn](case["p"], ds, obs, m)
   before, bodies, snap, judge = r[0], r[1], r[2], r[3]
@@ -826,6 +898,7 @@ def _execute(case):
                  "nothing it should do next can happen until an unrelated ping arrives" % (scn, when, name, site), scn=scn)
 
   nondefault = case.get("cfg") == "nondefault"
+  runner = case.get("runner")
   others = []
 
   def main():
@@ -834,12 +907,32 @@ def _execute(case):
     if nondefault:
       # another running scheduler is the process default; the one under test is not
       others.append(R.Scheduler(isDefaultScheduler=True, startInThread=True, threaded_selecthub=hub))
-    s = R.Scheduler(isDefaultScheduler=not nondefault, startInThread=True, threaded_selecthub=hub)
-    obs.s = s
+    if runner == "other":      # created here (thread X = main) with startInThread=False, run() called on another thread Y
+      s = R.Scheduler(isDefaultScheduler=True, startInThread=False, threaded_selecthub=hub)
+      obs.s = s
+      obs.sched_thread = ds.Thread(target=s.run, name="Y")
+      obs.sched_thread.start()
+    elif runner == "creator":  # created with startInThread=False on the thread that then calls run() itself
+      made = ds.threading.Event()
+
+      def c_body():
+        obs.s = R.Scheduler(isDefaultScheduler=True, startInThread=False, threaded_selecthub=hub)
+        obs.sched_thread = _rt.current_thread()
+        made.set()
+        obs.s.run()
+      ds.Thread(target=c_body, name="C").start()
+      made.wait()
+      s = obs.s
+    else:
+      s = R.Scheduler(isDefaultScheduler=not nondefault, startInThread=True, threaded_selecthub=hub)
+      obs.s = s
+      obs.sched_thread = s._thread
     before(s)
     ths = [ds.Thread(target=b, name="F%d" % i) for i, b in enumerate(bodies)]
     for t in ths:
       t.start()
+    if obs.creator is not None:
+      obs.creator(s)
     for t in ths:
       t.join()
     if obs.tail is not None:
@@ -861,7 +954,7 @@ def _execute(case):
       x.quit()
       x._selectHub.break_idle()
       x._selectHub._cycle()
-      x._thread.join()
+      (obs.sched_thread if x is s else x._thread).join()
       if x._selectHub._thread is not None:
         x._selectHub._thread.join()
 
@@ -931,11 +1024,15 @@ def _execute(case):
   if nondefault:
     out.label("cfg:nondefault")
   out.label("pinger:" + ("real" if realp else "fake"))
-  if scn == "a" and any(isinstance(op, list) for pr in case["p"]["threads"] for op in pr):
-    tot = sum(op[1] if isinstance(op, list) else 1 for pr in case["p"]["threads"] for op in pr)
+  if scn == "a" and (case["p"].get("task") or any(isinstance(op, list) and op[0] == "n" for pr in case["p"]["threads"] for op in pr)):
+    out.label("a:scheduler-thread-submitter")
+  if case.get("runner"):
+    out.label("runner:" + case["runner"])
+  if scn == "a" and any(isinstance(op, list) and op[0] == "b" for pr in case["p"]["threads"] for op in pr):
+    tot = sum(op[1] if isinstance(op, list) and op[0] == "b" else 1 for pr in case["p"]["threads"] for op in pr)
     out.label("a:burst", "a:burst-total:%s" % (tot if tot in BURSTS else ("multiple-of-1024" if tot % 1024 == 0 else "other")))
   out.label("scn:" + scn, "hub:" + ("threaded" if hub else "inline"), "sched:" + ("dev" if "devs" in sc else "random"))
-  if sc.get("on") == "op":
+  if sc.get("on") in ("op", "opwin"):
     out.label("sched:opcode-level")
   out.label("preemptions:%d" % min(len(res.preemptions), 4), "window-preemptions:%d" % min(len(wp), 4))
   for d in wp:
@@ -979,11 +1076,13 @@ def _small_instances():
   ]
 
 
-def _dev_cases(scn, p, hub, base, bound, cfg=None, pinger=None):
+def _dev_cases(scn, p, hub, base, bound, cfg=None, pinger=None, on="win", runner=None):
   def mk(devs):
-    c = {"scn": scn, "hub": hub, "p": p, "sched": {"on": "win", "base": base, "devs": sorted([k, v] for k, v in devs.items())}}
+    c = {"scn": scn, "hub": hub, "p": p, "sched": {"on": on, "base": base, "devs": sorted([k, v] for k, v in devs.items())}}
     if pinger:
       c["pinger"] = pinger
+    if runner:
+      c["runner"] = runner
     if cfg:
       c["cfg"] = cfg
     return c
@@ -1013,6 +1112,67 @@ def _enum_sched(tier):
       for base in ((0, 1) if p.get("tail") else (0,)):
         for c in _dev_cases(scn, p, True, base, 2 if (tier == "thorough" and p.get("tail")) else 1, pinger="real"):
           yield c
+  return gen
+
+
+def _enum_opcode_calllater(tier):
+  """Opcode-level switch points confined to CallLaterTask.callLater / CallLaterTask.run / Scheduler.callLater: every
+  schedule with <= 1 deviation (thorough: 2) for two foreign threads x one callLater + one follow-up hand-over."""
+  def gen():
+    for warm in (False, True):
+      for hub in (True, False):
+        for base in ((0,) if tier == "quick" else (0, 1)):
+          p = {"threads": [["cl"], ["cl"]], "tail": 1, "warm": warm}
+          for c in _dev_cases("a", p, hub, base, 1 if tier == "quick" else 2, on="opwin"):
+            yield c
+  return gen
+
+
+def _enum_sched_thread_submitters(tier):
+  """Hand-overs submitted from the scheduler thread itself (by a handed-over function and by a cooperative task): every
+  sequence of three wrappers out of Scheduler.callLater / core.call_later / core.raiseLater, default schedule."""
+  def gen():
+    for ops in itertools.product(["cl", "co", "rl"], repeat=3):
+      for hub in (True, False):
+        for runner in (None, "other", "creator"):
+          c = {"scn": "a", "hub": hub, "p": {"threads": [["cl", ["n", list(ops)]]], "task": list(ops)},
+               "sched": {"on": "win", "base": 0, "devs": []}}
+          if runner:
+            c["runner"] = runner
+          yield c
+  return gen
+
+
+def _enum_creator_runner(tier):
+  """Scheduler(startInThread=False) created on thread X, run() called on thread Y (X != Y: "other", X == Y: "creator"), with
+  the creator among the submitters / wakers.  <= 1 deviation for a and b; for b with X != Y additionally every schedule made
+  of one pre-emption of the creator inside Scheduler.schedule / fast_schedule followed by one pre-emption of the thread
+  that runs the scheduler (the unsynchronised check-then-append window needs both)."""
+  def gen():
+    pa = {"threads": [["cl"]], "creator": 1, "tail": 1}
+    pb = {"wakers": [1], "inthread": 0, "creator": 1}
+    for runner in ("other", "creator"):
+      for hub in (True, False):
+        for base in (0, 1):
+          for scn, p in (("a", pa), ("b", pb)):
+            for c in _dev_cases(scn, p, hub, base, 1, runner=runner):
+              yield c
+    for hub in (True, False):
+      for base in (0, 1):
+        def mk(devs):
+          return {"scn": "b", "hub": hub, "runner": "other", "p": pb,
+                  "sched": {"on": "win", "base": base, "devs": sorted([k, v] for k, v in devs.items())}}
+        base_decs = _execute(mk({}))[1].decisions
+        firsts = [{d["k"]: v} for d in base_decs if not d.get("frozen") and d["kind"] == "line" and d["thread"] == "main"
+                  and d["site"].startswith(("Scheduler.schedule", "Scheduler.fast_schedule")) for v in range(1, d["n"])]
+        for devs1 in firsts:
+          last = max(devs1)
+          for d in _execute(mk(devs1))[1].decisions:
+            if d["k"] > last and not d.get("frozen") and d["kind"] == "line" and d["thread"] == "Y":
+              for v in range(1, d["n"]):
+                nd = dict(devs1)
+                nd[d["k"]] = v
+                yield mk(nd)
   return gen
 
 
@@ -1179,4 +1339,7 @@ def plan(tier):
           Enum("nondefault-scheduler", _enum_nondefault(tier), shards=4 if tier == "quick" else 16),
           Enum("calllater-bursts", _enum_bursts(tier), shards=6),
           Enum("pinger-windows", _enum_pinger_windows(tier), shards=4 if tier == "quick" else 16),
+          Enum("opcode-calllater", _enum_opcode_calllater(tier), shards=6 if tier == "quick" else 16),
+          Enum("scheduler-thread-submitters", _enum_sched_thread_submitters(tier), shards=2),
+          Enum("creator-runner", _enum_creator_runner(tier), shards=6 if tier == "quick" else 16),
           Hyp("random-schedules", _strategy(tier), examples=n, shards=12 if tier == "quick" else 16)]
